@@ -6,6 +6,7 @@
 import BezierVerif.Gen.Box
 import BezierVerif.Model.Sweep
 import BezierVerif.Tactics
+import Mathlib.Data.List.Nodup
 
 set_option linter.unusedSectionVars false
 set_option linter.unusedVariables false
@@ -249,5 +250,188 @@ theorem add_mem_instructions (nA nB : Nat) (o : Obj) (h : if o.side = false then
   unfold instructions
   rcases o with ⟨sd, i⟩
   cases sd <;> simp at h ⊢ <;> exact h
+
+def isAdd : Ev → Bool
+  | .add _ => true
+  | .rem _ => false
+
+/-- the order of the repaired code: by x, and at equal x additions before removals -/
+def LexLe (box : Obj → Box K) (a b : Ev) : Prop :=
+  key box a < key box b ∨ (key box a = key box b ∧ (isAdd a = true ∨ isAdd b = false))
+
+/-- **completeness for closed overlap** (the property as stated): with the instructions ordered by x and, at equal x, additions before
+    removals, every pair of shapes from the two collections whose boxes overlap — touching in x included — is reported -/
+theorem sweep_complete_closed (box : Obj → Box K) (evs : List Ev)
+    (hs : evs.Pairwise (LexLe box))
+    (x y : Obj) (hside : x.side ≠ y.side)
+    (hx : Ev.add x ∈ evs) (hy : Ev.add y ∈ evs)
+    (hov : ovOf box x y = true) :
+    (x, y) ∈ (run (ovOf box) evs).out ∨ (y, x) ∈ (run (ovOf box) evs).out := by
+  have hov' : ovOf box y x = true := by
+    unfold ovOf at *; rw [overlaps_symm]; exact hov
+  have hgeo := (overlaps_iff _ _ _ _ _ _ _ _).mp hov
+  have hxl : (box y).l ≤ (box x).r := hgeo.1.1
+  have hyl : (box x).l ≤ (box y).r := hgeo.1.2
+  have hne : Ev.add x ≠ Ev.add y := by
+    intro h; injection h with h; exact hside (by rw [h])
+  have main : ∀ a b : Obj, a.side ≠ b.side → ovOf box b a = true → (box b).l ≤ (box a).r →
+      (∃ l1 l2 l3, evs = l1 ++ Ev.add a :: l2 ++ Ev.add b :: l3) → (b, a) ∈ (run (ovOf box) evs).out := by
+    intro a b hsd ho hle ⟨l1, l2, l3, he⟩
+    rw [he]
+    apply complete_core _ _ _ _ _ _ hsd ho
+    intro hmem
+    rw [he] at hs
+    have h1 : (l1 ++ Ev.add a :: l2 ++ Ev.add b :: l3) = (l1 ++ Ev.add a :: l2) ++ (Ev.add b :: l3) := by simp
+    rw [h1] at hs
+    have hp := (List.pairwise_append.mp hs).2.2 (Ev.rem a) (by simp [hmem]) (Ev.add b) (by simp)
+    unfold LexLe at hp
+    simp only [key, isAdd] at hp
+    rcases hp with hp | ⟨_, hp⟩
+    · exact absurd (lt_of_lt_of_le hp hle) (lt_irrefl _)
+    · rcases hp with hp | hp <;> simp at hp
+  obtain ⟨m, n, hmn⟩ := List.append_of_mem hx
+  rw [hmn] at hy
+  rcases List.mem_append.mp hy with hy1 | hy2
+  · obtain ⟨m1, m2, hm⟩ := List.append_of_mem hy1
+    left
+    exact main y x (fun h => hside h.symm) hov hyl ⟨m1, m2, n, by rw [hmn, hm]; try simp⟩
+  · rcases List.mem_cons.mp hy2 with h | h
+    · exact absurd h.symm hne
+    · obtain ⟨n1, n2, hn⟩ := List.append_of_mem h
+      right
+      exact main x y hside hov' hxl ⟨m, n1, n2, by rw [hmn, hn]; try simp⟩
+
+/-- **F27**: one box ending at x = 10 from the first collection, one beginning at x = 10 from the second (they overlap: closed ranges).
+    In the pinned order — sorted by x alone, ties left as generated: the first box's removal before the second's addition — nothing is
+    reported; with additions first the pair is reported -/
+theorem pinned_tie_counterexample :
+    let box : Obj → Box ℚ := fun o => if o.side then ⟨10, 0, 20, 5⟩ else ⟨0, 0, 10, 5⟩
+    (run (ovOf box) [Ev.add ⟨false, 0⟩, Ev.rem ⟨false, 0⟩, Ev.add ⟨true, 0⟩, Ev.rem ⟨true, 0⟩]).out = []
+    ∧ (run (ovOf box) [Ev.add ⟨false, 0⟩, Ev.add ⟨true, 0⟩, Ev.rem ⟨false, 0⟩, Ev.rem ⟨true, 0⟩]).out = [(⟨true, 0⟩, ⟨false, 0⟩)]
+    ∧ ovOf box ⟨false, 0⟩ ⟨true, 0⟩ = true := by
+  decide +kernel
+
+/-- the objects added by a list of instructions, in order -/
+def adds : List Ev → List Obj
+  | [] => []
+  | .add o :: es => o :: adds es
+  | .rem _ :: es => adds es
+
+/-- invariant of the event loop with respect to the objects added so far -/
+structure Inv (s : St) (seen : List Obj) : Prop where
+  a_sub : ∀ o ∈ s.actA, o ∈ seen
+  b_sub : ∀ o ∈ s.actB, o ∈ seen
+  a_nd : s.actA.Nodup
+  b_nd : s.actB.Nodup
+  out_fst : ∀ p ∈ s.out, p.1 ∈ seen
+  out_nd : s.out.Nodup
+
+theorem inv_step_add (ov : Obj → Obj → Bool) (s : St) (seen : List Obj) (o : Obj) (h : Inv s seen) (hn : o ∉ seen) :
+    Inv (step ov s (.add o)) (seen ++ [o]) := by
+  obtain ⟨ha, hb, nda, ndb, hf, ndo⟩ := h
+  simp only [step]
+  split
+  · refine ⟨?_, ?_, ?_, ndb, ?_, ?_⟩
+    · intro x hx; simp at hx ⊢; rcases hx with hx | hx; exact Or.inl (ha x hx); exact Or.inr hx
+    · intro x hx; simp; exact Or.inl (hb x hx)
+    · rw [List.nodup_append]; refine ⟨nda, by simp, ?_⟩
+      intro x hx y hy; simp at hy; subst hy; intro he; subst he; exact hn (ha _ hx)
+    · intro p hp; simp at hp ⊢
+      rcases hp with hp | ⟨o2, _, rfl⟩
+      · exact Or.inl (hf p hp)
+      · exact Or.inr rfl
+    · rw [List.nodup_append]
+      refine ⟨ndo, ?_, ?_⟩
+      · exact List.Nodup.map (fun a b hab => (Prod.mk.inj hab).2) (ndb.filter _)
+      · intro p hp q hq; simp at hq
+        obtain ⟨o2, _, rfl⟩ := hq
+        intro he; subst he; exact hn (hf _ hp)
+  · refine ⟨?_, ?_, nda, ?_, ?_, ?_⟩
+    · intro x hx; simp; exact Or.inl (ha x hx)
+    · intro x hx; simp at hx ⊢; rcases hx with hx | hx; exact Or.inl (hb x hx); exact Or.inr hx
+    · rw [List.nodup_append]; refine ⟨ndb, by simp, ?_⟩
+      intro x hx y hy; simp at hy; subst hy; intro he; subst he; exact hn (hb _ hx)
+    · intro p hp; simp at hp ⊢
+      rcases hp with hp | ⟨o2, _, rfl⟩
+      · exact Or.inl (hf p hp)
+      · exact Or.inr rfl
+    · rw [List.nodup_append]
+      refine ⟨ndo, ?_, ?_⟩
+      · exact List.Nodup.map (fun a b hab => (Prod.mk.inj hab).2) (nda.filter _)
+      · intro p hp q hq; simp at hq
+        obtain ⟨o2, _, rfl⟩ := hq
+        intro he; subst he; exact hn (hf _ hp)
+
+theorem inv_step_rem (ov : Obj → Obj → Bool) (s : St) (seen : List Obj) (o : Obj) (h : Inv s seen) :
+    Inv (step ov s (.rem o)) seen := by
+  obtain ⟨ha, hb, nda, ndb, hf, ndo⟩ := h
+  simp only [step]
+  split
+  · exact ⟨fun x hx => ha x (List.mem_filter.mp hx).1, hb, nda.filter _, ndb, hf, ndo⟩
+  · exact ⟨ha, fun x hx => hb x (List.mem_filter.mp hx).1, nda, ndb.filter _, hf, ndo⟩
+
+theorem inv_foldl (ov : Obj → Obj → Bool) (evs : List Ev) :
+    ∀ (s : St) (seen : List Obj), Inv s seen → (seen ++ adds evs).Nodup → Inv (evs.foldl (step ov) s) (seen ++ adds evs) := by
+  induction evs with
+  | nil => intro s seen h _; simpa [adds] using h
+  | cons e es ih =>
+    intro s seen h hnd
+    cases e with
+    | add o =>
+      simp only [adds, List.foldl_cons] at hnd ⊢
+      have hn : o ∉ seen := by
+        intro hm
+        have := (List.nodup_append.mp hnd).2.2 o hm o (by simp)
+        exact this rfl
+      have := ih _ (seen ++ [o]) (inv_step_add ov s seen o h hn) (by simpa using hnd)
+      simpa using this
+    | rem o =>
+      simp only [adds, List.foldl_cons] at hnd ⊢
+      exact ih _ seen (inv_step_rem ov s seen o h) hnd
+
+/-- **every pair is reported at most once** — for every order of the instructions, as long as no shape is added twice (each shape has one
+    add instruction) -/
+theorem sweep_once (ov : Obj → Obj → Bool) (evs : List Ev) (h : (adds evs).Nodup) : (run ov evs).out.Nodup := by
+  have := inv_foldl ov evs ⟨[], [], []⟩ [] ⟨by simp, by simp, by simp, by simp, by simp, by simp⟩ (by simpa using h)
+  exact this.out_nd
+
+theorem adds_append (l1 l2 : List Ev) : adds (l1 ++ l2) = adds l1 ++ adds l2 := by
+  induction l1 with
+  | nil => rfl
+  | cons e es ih => cases e <;> simp [adds, ih]
+
+theorem adds_side (sd : Bool) (n : Nat) :
+    adds ((List.range n).flatMap fun i => [Ev.add ⟨sd, i⟩, Ev.rem ⟨sd, i⟩]) = (List.range n).map fun i => (⟨sd, i⟩ : Obj) := by
+  induction n with
+  | zero => rfl
+  | succ n ih =>
+    rw [List.range_succ, List.flatMap_append, adds_append, ih, List.map_append]
+    simp [adds]
+
+/-- the instruction list of the code adds every shape once (and so does every reordering of it: `List.Perm.nodup_iff`) -/
+theorem adds_instructions_nodup (nA nB : Nat) : (adds (instructions nA nB)).Nodup := by
+  unfold instructions
+  rw [adds_append, adds_side, adds_side, List.nodup_append]
+  refine ⟨?_, ?_, ?_⟩
+  · exact List.Nodup.map (fun a b h => by injection h) List.nodup_range
+  · exact List.Nodup.map (fun a b h => by injection h) List.nodup_range
+  · intro x hx y hy he
+    rw [List.mem_map] at hx hy
+    obtain ⟨i, _, rfl⟩ := hx
+    obtain ⟨j, _, rfl⟩ := hy
+    injection he with h1 _
+    exact absurd h1 (by decide)
+
+theorem adds_perm (l1 l2 : List Ev) (h : l1.Perm l2) : (adds l1).Perm (adds l2) := by
+  induction h with
+  | nil => exact List.Perm.refl _
+  | cons e _ ih => cases e <;> simp [adds, ih]
+  | swap a b l => cases a <;> cases b <;> simp [adds, List.Perm.swap]
+  | trans _ _ ih1 ih2 => exact ih1.trans ih2
+
+/-- **exactly once, for the code's instruction list in any order** (in particular the sorted one) -/
+theorem sweep_once_sorted (ov : Obj → Obj → Bool) (nA nB : Nat) (evs : List Ev) (hp : evs.Perm (instructions nA nB)) :
+    (run ov evs).out.Nodup :=
+  sweep_once ov evs ((adds_perm _ _ hp).nodup_iff.mpr (adds_instructions_nodup nA nB))
 
 end C19
